@@ -3,18 +3,24 @@
 //@ assume: decided here: the set algebra of the unspent-leaf bitmap (whole-view postconditions); fork trees, reorganisation histories, restart and the LMDB output index are outside this family (DESIGN 6 C02)
 //@ assume: LeafSet::flush: the disk content of the leaf-set file is a ghost out-parameter (T6: `Tracked(disk)` added to flush and to save_via_temp_file, whose contract -- Ok means the path holds exactly what the writer closure wrote, Err leaves it -- is assumed here and its step order decided in C09/save_via_temp_file); the writer closure is lifted and verified (T7); `serialize::<Portable>()` => serialize_portable(), a function of the set; run_optimize keeps the set
 //@ assume: decided here (C02 / C09): after a successful flush the file holds the CURRENT leaf set and discard() returns to the CURRENT leaf set -- for ANY previous backup, in particular when a reorg left a leaf set with the same number of leaves and the same last leaf as the backup
+//@ assume: LeafSet::open: store::read_bitmap is abstract (the bitmap decoded from the file's bytes, the ghost `disk` handed in); ASSUMED: decoding inverts the portable serialisation; lemma_flush_then_open (over the two contracts): reopening after a successful flush yields exactly the flushed leaf set, as bitmap AND as backup; T3: the debug block is removed
 //@ assume: 64-bit target
-//@ assumed_items: 15
-//@ fns: LeafSet::add, LeafSet::remove, LeafSet::includes, LeafSet::rewind, LeafSet::discard, LeafSet::flush (+ its writer closure)
+//@ assumed_items: 21
+//@ fns: LeafSet::add, LeafSet::remove, LeafSet::includes, LeafSet::rewind, LeafSet::discard, LeafSet::flush (+ its writer closure), LeafSet::open
 global size_of usize == 8;
 
 #[verifier::external_body]
 pub struct ExtPath;
 impl ExtPath {
-    /// offered (not used by the pinned text): whether the file is there says nothing about its content
+    /// whether the file is there (ghost: sp_exists); says nothing about its content
     #[verifier::external_body]
-    pub fn exists(&self) -> (r: bool) { unimplemented!() }
+    pub fn exists(&self) -> (r: bool) ensures r == sp_exists(*self) { unimplemented!() }
+    #[verifier::external_body]
+    pub fn as_ref(&self) -> (r: &ExtPath) ensures *r == *self { unimplemented!() }
+    #[verifier::external_body]
+    pub fn to_path_buf(&self) -> (r: ExtPath) ensures r == *self { unimplemented!() }
 }
+pub uninterp spec fn sp_exists(p: ExtPath) -> bool;
 
 #[verifier::external_body]
 pub struct Bitmap { _p: u8 }
@@ -58,6 +64,8 @@ impl Bitmap {
     pub fn clone(&self) -> (r: Bitmap)
         ensures r@ == self@
     { unimplemented!() }
+    #[verifier::external_body]
+    pub fn is_empty(&self) -> (r: bool) ensures r == (self@ == Set::<int>::empty()) { unimplemented!() }
     /// offered (not used by the pinned text of flush)
     #[verifier::external_body]
     pub fn cardinality(&self) -> (r: u64)
@@ -76,6 +84,20 @@ impl Bitmap {
 }
 /// the portable serialisation of a bitmap (a function of the set)
 pub uninterp spec fn sp_ser(s: Set<int>) -> Seq<u8>;
+/// what read_bitmap makes of a file's bytes; ASSUMED: it inverts the portable serialisation (croaring)
+pub uninterp spec fn sp_deser(b: Seq<u8>) -> Set<int>;
+#[verifier::external_body]
+pub proof fn axiom_deser_ser(s: Set<int>) ensures sp_deser(sp_ser(s)) == s { }
+/// store::read_bitmap(path): the bitmap decoded from the file at path (its bytes: the ghost `disk`)
+#[verifier::external_body]
+pub fn read_bitmap(path: &ExtPath, Tracked(disk): Tracked<&Disk>) -> (r: io::Result<Bitmap>) ensures r matches Ok(b) ==> b@ == sp_deser(disk.content) { unimplemented!() }
+#[verifier::external_body]
+pub fn bitmap_new() -> (r: Bitmap) ensures r@ == Set::<int>::empty() { unimplemented!() }
+/// REOPEN: a leaf set flushed and then opened again from the same file is the leaf set that was flushed, and discard() keeps it
+pub proof fn lemma_flush_then_open(flushed: Set<int>, disk: Disk, opened: LeafSet)
+    requires disk.content == sp_ser(flushed), opened.bitmap@ == sp_deser(disk.content), opened.bitmap_bak@ == opened.bitmap@,
+    ensures opened.bitmap@ == flushed && opened.bitmap_bak@ == flushed,
+{ axiom_deser_ser(flushed); }
 pub struct IoError { pub k: u8 }
 pub mod io { pub type Result<T> = std::result::Result<T, super::IoError>; }
 /// the temp file handed to the writer closure: the bytes written to it so far
@@ -133,6 +155,17 @@ impl LeafSet {
 //@   ensures:
 //@+    final(self).bitmap@ =~= old(self).bitmap@.filter(|x: int| x <= cutoff_pos).union(rewind_rm_pos@),
 //@+    final(self).bitmap_bak@ == old(self).bitmap_bak@,
+//@ end
+
+//@ extract store/src/leaf_set.rs :: impl LeafSet::open
+//@   strip_logs
+//@   sigrewrite `pub fn open<P: AsRef<Path>>(path: P)` => `pub fn open(path: &ExtPath, Tracked(disk): Tracked<&Disk>)`
+//@   rewrite `read_bitmap(&file_path)?` => `read_bitmap(&file_path, Tracked(disk))?`
+//@   rewrite `Bitmap::new()` => `bitmap_new()`
+//@   rewrite `\t\tif !bitmap.is_empty() {\n\t\t}\n` => `` x?
+//@   ensures:
+//@+    // what is opened is what the file holds (nothing, if there is no file), and the backup starts equal to it
+//@+    r matches Ok(ls) ==> ls.bitmap@ == (if sp_exists(*path) { sp_deser(disk.content) } else { Set::<int>::empty() }) && ls.bitmap_bak@ == ls.bitmap@ && ls.path == *path,
 //@ end
 
 //@ extract store/src/leaf_set.rs :: impl LeafSet::flush
